@@ -24,10 +24,10 @@ CONSTANTS Cases      \* subset of 1..NCases
 Rep(n, s) == [i \in 1..n |-> s]                   \* n copies of statement s
 P1 == X(-1, <<1>>)                                \* PUSH1 1
 
-\* self-recursion through call kind op with a counter in storage slot 0; every frame records the flag
-\* of ITS call under slot number = its own counter value
-RecStore(op, to) == <<X(SLOAD, <<0>>), X(ADD, <<1>>), X(DUP1, <<>>), X(SSTORE, <<0>>),
-                      CallS(op, to, 0, 0, 0), X(SWAP1, <<>>), X(SSTORE, <<>>), X(STOP, <<>>)>>
+\* self-recursion through call kind op with a counter in storage slot 0 (= number of frames that ran);
+\* slot 1 holds the flag of the outermost call
+RecStore(op, to) == <<X(SLOAD, <<0>>), X(ADD, <<1>>), X(SSTORE, <<0>>),
+                      CallS(op, to, 0, 0, 0), X(SSTORE, <<1>>), X(STOP, <<>>)>>
 \* self-recursion in a static context: the counter travels in call data, the deepest counter in return data
 RecStatic == <<X(CALLDATALOAD, <<0>>), X(ADD, <<1>>), X(MSTORE, <<0>>),
                X(STATICCALL, <<-2, AddrA, 0, 32, 0, 32>>), X(POP, <<>>), X(RETURN, <<0, 32>>)>>
